@@ -578,8 +578,11 @@ func (r *reporter) AllocateHistogram(
 	tags map[string]string,
 	buckets tally.Buckets,
 ) tally.CachedHistogram {
+	// n.b. The Prometheus client keeps the bounds it is given: hand it a copy,
+	//      the slice behind a ValueBuckets belongs to the caller.
+	bounds := append([]float64(nil), buckets.AsValues()...)
 	tagKeys := keysFromMap(tags)
-	histogramVec, err := r.histogramVec(name, tagKeys, name+" histogram", buckets.AsValues())
+	histogramVec, err := r.histogramVec(name, tagKeys, name+" histogram", bounds)
 	if err != nil {
 		r.onRegisterError(err)
 		return noopMetric{}
